@@ -88,7 +88,7 @@ let str_event (e : event) : string =
       Printf.sprintf "s%d:%s:%d q%d:%s c%d:%s t%d:%s%s" h (string_of_z r.r_ret)
         (if r.r_active then 1 else 0) h (str_table r.r_ptbl) h child h streams reaped
   | EWait (h, a) -> Printf.sprintf "w%d:%s" (int_of_nat h) (str_ans a)
-  | EReap (_, _) -> ""
+  | EReap (_, _, _) -> ""
   | EStop h -> Printf.sprintf "stop%d" (int_of_nat h)
   | EExit (h, es, ts) -> Printf.sprintf "x%d:%s:%s" (int_of_nat h) (string_of_z es) (string_of_z ts)
   | EShort -> "short" | EExtra -> "extra" | EAbort -> "abort"
